@@ -1,11 +1,15 @@
 package sim
 
 // C33: replication delivers every log, in order, despite failures.
+//
+// One or two ledgers, one or two exporters, up to three pipelines (two ledgers sharing an exporter, one
+// ledger exported twice), administrative actions (stop, start, reset, delete a pipeline, update an exporter),
+// concurrent writers, exporter failures (whole batch, single item), storage failures and crash/restart of the
+// worker. Every oracle is per pipeline = per (exporter, ledger) pair.
 
 import (
-	"encoding/json"
 	"fmt"
-	"strings"
+	"sort"
 
 	ledger "github.com/formancehq/ledger/internal"
 )
@@ -20,50 +24,94 @@ func init() {
 		sc.Worker = &WorkerSpec{Enabled: true, PullMs: Pick(r, []int{503, 5003, 60007}), PushRetryMs: Pick(r, []int{47, 499, 4999}), PageSize: 1 + r.Intn(5),
 			SyncMs: Pick(r, []int{1009, 60013}), BatchMaxItems: r.Intn(4), BatchFlushMs: Pick(r, []int{11, 53, 997})}
 		g := &gen{r: r, sc: sc}
-		sc.Setup = []Op{{ID: g.id("s"), Kind: KCreateLedger, Ledger: "l1"}}
-		pre := r.Intn(4)
-		for i := 0; i < pre; i++ {
-			sc.Setup = append(sc.Setup, Op{ID: g.id("s"), Kind: KPostings, Ledger: "l1", Postings: []PostingSpec{{"world", "a", "1", "USD"}}})
+		ledgers := []string{"l1"}
+		if r.Chance(0.4) {
+			ledgers = append(ledgers, "l2")
+		}
+		for _, l := range ledgers {
+			sc.Setup = append(sc.Setup, Op{ID: g.id("s"), Kind: KCreateLedger, Ledger: l})
+			for i, pre := 0, r.Intn(4); i < pre; i++ {
+				sc.Setup = append(sc.Setup, Op{ID: g.id("s"), Kind: KPostings, Ledger: l, Postings: []PostingSpec{{"world", "a", "1", "USD"}}})
+			}
 		}
 		batching := map[string]any{"flushInterval": fmt.Sprintf("%dms", sc.Worker.BatchFlushMs)}
 		if sc.Worker.BatchMaxItems > 0 {
 			batching["maxItems"] = sc.Worker.BatchMaxItems
 		}
-		raw := func(id, method, path, body, capture string) Op {
-			return Op{ID: id, Kind: KRaw, Ledger: "l1", Capture: capture, Raw: &Request{Method: method, Path: path, Body: body, Header: map[string]string{"Content-Type": "application/json"}}}
+		var admin []Op
+		raw := func(method, path, body, capture string) *Op {
+			admin = append(admin, Op{ID: fmt.Sprintf("a0.%d", len(admin)), Kind: KRaw, Ledger: "l1", Capture: capture, Raw: &Request{Method: method, Path: path, Body: body, Header: map[string]string{"Content-Type": "application/json"}}})
+			return &admin[len(admin)-1]
 		}
-		admin := []Op{
-			raw("a0.0", "POST", "/v2/_/exporters", mustJSON(map[string]any{"driver": "rec", "config": map[string]any{"name": "x1", "batching": batching}}), "exporter"),
-			raw("a0.1", "POST", "/v2/l1/pipelines", `{"exporterID":"$exporter"}`, "pipeline"),
+		exporterBody := func(name string) string {
+			return mustJSON(map[string]any{"driver": "rec", "config": map[string]any{"name": name, "batching": batching}})
 		}
-		admin[0].Keep, admin[1].Keep = true, true
-		stopped := false
-		n := r.Intn(5)
-		for i := 0; i < n; i++ {
-			id := fmt.Sprintf("a0.%d", len(admin))
-			switch x := r.Intn(6); {
-			case x < 2 && !stopped:
-				admin = append(admin, raw(id, "POST", "/v2/l1/pipelines/$pipeline/stop", "", ""))
-				stopped = true
-			case x < 3 && stopped:
-				admin = append(admin, raw(id, "POST", "/v2/l1/pipelines/$pipeline/start", "", ""))
-				stopped = false
+		// the first exporter and the first pipeline are what the run is about: the minimiser keeps them
+		raw("POST", "/v2/_/exporters", exporterBody("x1"), "exporter").Keep = true
+		raw("POST", "/v2/l1/pipelines", `{"exporterID":"$exporter"}`, "pipeline").Keep = true
+		type pipe struct {
+			v       string // variable holding the pipeline id
+			stopped bool
+			deleted bool
+		}
+		pipes := []*pipe{{v: "pipeline"}}
+		twoExporters := r.Chance(0.3)
+		if twoExporters {
+			raw("POST", "/v2/_/exporters", exporterBody("x2"), "xB")
+		}
+		if len(ledgers) > 1 && r.Chance(0.8) {
+			// a second ledger, exported through the same exporter or through the second one
+			x := "$exporter"
+			if twoExporters && r.Bool() {
+				x = "$xB"
+			}
+			raw("POST", "/v2/l2/pipelines", `{"exporterID":"`+x+`"}`, "pB")
+			pipes = append(pipes, &pipe{v: "pB"})
+		}
+		if twoExporters && r.Chance(0.6) {
+			// the first ledger exported twice
+			raw("POST", "/v2/l1/pipelines", `{"exporterID":"$xB"}`, "pC")
+			pipes = append(pipes, &pipe{v: "pC"})
+		}
+		ledgerOf := map[string]string{"pipeline": "l1", "pB": "l2", "pC": "l1"}
+		for i, n := 0, r.Intn(6); i < n; i++ {
+			p := Pick(r, pipes)
+			if p.deleted {
+				continue
+			}
+			base := "/v2/" + ledgerOf[p.v] + "/pipelines/$" + p.v
+			switch x := r.Intn(9); {
+			case x < 2 && !p.stopped:
+				raw("POST", base+"/stop", "", "")
+				p.stopped = true
+			case x < 3 && p.stopped:
+				raw("POST", base+"/start", "", "")
+				p.stopped = false
 			case x < 5:
-				admin = append(admin, raw(id, "POST", "/v2/l1/pipelines/$pipeline/reset", "", "reset"))
+				raw("POST", base+"/reset", "", "reset")
+				p.stopped = false // a reset enables the pipeline
+			case x < 6 && p.v != "pipeline":
+				raw("DELETE", base, "", "")
+				p.deleted = true
+			case x < 7:
+				// reconfigure the first exporter while pipelines use it
+				raw("PUT", "/v2/_/exporters/$exporter", exporterBody("x1"), "")
 			default:
 				// let some time pass between administrative actions
-				admin = append(admin, Op{ID: id, Kind: KSleep, SleepMs: Pick(r, []int{10, 200, 3000})})
+				admin = append(admin, Op{ID: fmt.Sprintf("a0.%d", len(admin)), Kind: KSleep, SleepMs: Pick(r, []int{10, 200, 3000})})
 			}
 		}
-		if stopped {
-			admin = append(admin, raw(fmt.Sprintf("a0.%d", len(admin)), "POST", "/v2/l1/pipelines/$pipeline/start", "", ""))
+		for _, p := range pipes {
+			if p.stopped && !p.deleted {
+				raw("POST", "/v2/"+ledgerOf[p.v]+"/pipelines/$"+p.v+"/start", "", "")
+			}
 		}
 		sc.Clients = [][]Op{admin}
 		nw := 1 + r.Intn(2)
 		for c := 1; c <= nw; c++ {
 			var ops []Op
 			for i := 0; i < 1+r.Intn(4); i++ {
-				ops = append(ops, Op{ID: fmt.Sprintf("c%d.%d", c, i), Kind: KPostings, Ledger: "l1", Postings: []PostingSpec{{"world", fmt.Sprintf("w:%d", c), "1", "USD"}}})
+				ops = append(ops, Op{ID: fmt.Sprintf("c%d.%d", c, i), Kind: KPostings, Ledger: Pick(r, ledgers), Postings: []PostingSpec{{"world", fmt.Sprintf("w:%d", c), "1", "USD"}}})
 				if r.Chance(0.3) {
 					ops = append(ops, Op{ID: fmt.Sprintf("c%d.%ds", c, i), Kind: KSleep, SleepMs: Pick(r, []int{20, 700, 6000})})
 				}
@@ -96,7 +144,19 @@ func init() {
 	}})
 }
 
-// replStep is called after every scheduler step: safety clauses over the new Accept calls and the new
+// logIDs returns the ids of the committed logs of a ledger, ascending.
+func (r *runner) logIDs(ledgerName string) []uint64 {
+	var ids []uint64
+	for k, v := range r.state {
+		if k.Table == "log" && k.Ledger == ledgerName {
+			ids = append(ids, v.(*LogRow).ID)
+		}
+	}
+	sort.Slice(ids, func(i, j int) bool { return ids[i] < ids[j] })
+	return ids
+}
+
+// checkStep is called after every scheduler step: safety clauses over the new Accept calls and the new
 // commits of pipeline rows.
 func (ww *workerWorld) checkStep(r *runner, recs []CommitRec) []Violation {
 	var vs []Violation
@@ -106,48 +166,56 @@ func (ww *workerWorld) checkStep(r *runner, recs []CommitRec) []Violation {
 	ww.mu.Unlock()
 	for i := ww.lastSeen; i < len(accepts); i++ {
 		a := accepts[i]
-		for j := 1; j < len(a.IDs); j++ {
-			if a.IDs[j] <= a.IDs[j-1] {
-				vs = append(vs, Violation{prop, "logs-delivered-in-increasing-id-order", fmt.Sprintf("exporter %s received ids %v in one call", a.Exporter, a.IDs)})
+		if !a.Acked || len(a.IDs) == 0 {
+			continue
+		}
+		// Delivery is at least once: a stopped pipeline may leave its page in the exporter's batcher, and a
+		// restarted or reset pipeline sends the same logs again, so one call can carry duplicates
+		// ([1 2 3 1 2 3]). What must hold is that the FIRST delivery of each log follows the first
+		// delivery of every committed log with a smaller id: in increasing order, without gaps. A log the
+		// exporter refused individually in this very call counts as sent in its place (the system sent the
+		// page in order; which items an exporter accepts out of one call is the exporter's business), but it
+		// is not delivered: if it is never sent again, the next call trips this clause.
+		seen := map[uint64]bool{}
+		for _, b := range accepts[:i] {
+			if b.Ledger == a.Ledger && b.Exporter == a.Exporter {
+				for _, id := range b.acked() {
+					seen[id] = true
+				}
 			}
 		}
-		if a.Acked && len(a.IDs) > 0 {
-			// no gaps: every committed log of the ledger below the first id of an acknowledged batch was
-			// acknowledged before
-			before := map[uint64]bool{}
-			for _, b := range accepts[:i] {
-				if b.Acked && b.Ledger == a.Ledger {
-					for _, id := range b.IDs {
-						before[id] = true
-					}
-				}
+		ids := r.logIDs(a.Ledger)
+		sentHere := map[uint64]bool{}
+		for pos, id := range a.IDs {
+			sentHere[id] = true
+			if seen[id] || a.Refused[pos] {
+				continue
 			}
-			for k, v := range r.state {
-				if k.Table == "log" && k.Ledger == a.Ledger {
-					id := v.(*LogRow).ID
-					if id < a.IDs[0] && !before[id] {
-						tag := ""
-						if ww.spec.BatchMaxItems > 0 && ww.spec.BatchMaxItems < ww.spec.PageSize {
-							tag = fmt.Sprintf(" [page of %d split into batches of %d]", ww.spec.PageSize, ww.spec.BatchMaxItems)
+			for _, k := range ids {
+				if k < id && !seen[k] && !sentHere[k] {
+					// finding F12: the batcher cuts pages into driver calls of its own (maxItems, flush timer,
+					// other pipelines sharing the exporter); when the call carrying log k fails, the calls
+					// carrying the rest of the page still go through before k is retried
+					tag := ""
+					for _, b := range accepts[:i] {
+						if b.Ledger != a.Ledger || b.Exporter != a.Exporter {
+							continue
 						}
-						vs = append(vs, Violation{prop, "no-gap-in-delivered-logs", fmt.Sprintf("exporter %s acknowledged %v although log %d of ledger %s was never acknowledged%s", a.Exporter, a.IDs, id, a.Ledger, tag)})
-						break
-					}
-				}
-			}
-			for j := 1; j < len(a.IDs); j++ {
-				for k, v := range r.state {
-					if k.Table == "log" && k.Ledger == a.Ledger {
-						id := v.(*LogRow).ID
-						if id > a.IDs[j-1] && id < a.IDs[j] {
-							vs = append(vs, Violation{prop, "no-gap-in-delivered-logs", fmt.Sprintf("exporter %s acknowledged %v, skipping committed log %d", a.Exporter, a.IDs, id)})
+						for pos, bid := range b.IDs {
+							if bid == k && (!b.Acked || b.Refused[pos]) {
+								tag = " [the call that carried that log failed: the batcher's calls do not follow the pipeline's pages]"
+							}
 						}
 					}
+					vs = append(vs, Violation{prop, "no-gap-in-delivered-logs", fmt.Sprintf("exporter %s acknowledged %v: log %d of ledger %s is delivered for the first time although log %d was never acknowledged%s", a.Exporter, a.IDs, id, a.Ledger, k, tag)})
+					break
 				}
 			}
+			seen[id] = true
 		}
 	}
 	ww.lastSeen = len(accepts)
+	snap := r.w.db.CommittedSnapshot()
 	for _, rec := range recs {
 		for _, w := range rec.Writes {
 			if w.Key.Table != "pipeline" || w.After == nil {
@@ -163,11 +231,12 @@ func (ww *workerWorld) checkStep(r *runner, recs []CommitRec) []Violation {
 			var max uint64
 			// the reset that precedes this commit (several commits are examined per step: a state write that
 			// landed just before the reset's own update must not be judged against the reset)
-			since := ww.lastResetBefore(rec.Event)
+			since := ww.lastResetBefore(rec.Event, p.ID)
+			x := exporterName(snap, p.ExporterID)
 			ackedSet := map[uint64]bool{}
 			for _, a := range accepts {
-				if a.Acked && a.Ledger == p.Ledger && a.Seq >= since {
-					for _, id := range a.IDs {
+				if a.Ledger == p.Ledger && a.Exporter == x && a.Seq >= since {
+					for _, id := range a.acked() {
 						ackedSet[id] = true
 						if id > max {
 							max = id
@@ -175,27 +244,25 @@ func (ww *workerWorld) checkStep(r *runner, recs []CommitRec) []Violation {
 					}
 				}
 			}
-			what := "the exporter acknowledged"
+			what := fmt.Sprintf("exporter %s acknowledged", x)
 			if since > 0 {
-				what = "the exporter acknowledged since the pipeline was reset"
+				what += " since the pipeline was reset"
 			}
 			if *p.LastLogID > max {
 				if since > 0 {
 					ww.staleAfterReset = true
 				}
-				vs = append(vs, Violation{prop, "persisted-state-never-ahead-of-acknowledged", fmt.Sprintf("commit %d: pipeline %s persists last log id %d, but the highest id %s is %d", rec.Seq, p.ID[:8], *p.LastLogID, what, max)})
+				vs = append(vs, Violation{prop, "persisted-state-never-ahead-of-acknowledged", fmt.Sprintf("commit %d: pipeline %s (ledger %s) persists last log id %d, but the highest id %s is %d", rec.Seq, p.ID[:8], p.Ledger, *p.LastLogID, what, max)})
 			} else {
 				// everything up to the persisted id must have been acknowledged: a restart resumes after it
-				for k, v := range r.state {
-					if k.Table == "log" && k.Ledger == p.Ledger {
-						if id := v.(*LogRow).ID; id <= *p.LastLogID && !ackedSet[id] {
-							pre := ""
-							if ww.staleAfterReset {
-								pre = "after a stale last log id was persisted across a reset: "
-							}
-							vs = append(vs, Violation{prop, "persisted-state-covers-only-acknowledged-logs", fmt.Sprintf("%scommit %d: pipeline %s persists last log id %d although log %d was not among the logs %s", pre, rec.Seq, p.ID[:8], *p.LastLogID, id, what)})
-							break
+				for _, id := range r.logIDs(p.Ledger) {
+					if id <= *p.LastLogID && !ackedSet[id] {
+						pre := ""
+						if ww.staleAfterReset {
+							pre = "after a stale last log id was persisted across a reset: "
 						}
+						vs = append(vs, Violation{prop, "persisted-state-covers-only-acknowledged-logs", fmt.Sprintf("%scommit %d: pipeline %s (ledger %s) persists last log id %d although log %d was not among the logs %s", pre, rec.Seq, p.ID[:8], p.Ledger, *p.LastLogID, id, what)})
+						break
 					}
 				}
 			}
@@ -209,7 +276,7 @@ func checkReplicationFinal(r *runner) []Violation {
 	if r.worker == nil || r.w.harness != nil {
 		return nil
 	}
-	// the run only means something if the exporter and the pipeline could be created
+	// the run only means something if the first exporter and the first pipeline could be created
 	for _, or := range r.results {
 		if (or.Op.ID == "a0.0" || or.Op.ID == "a0.1") && or.Out.Class != "ok" {
 			return nil
@@ -223,14 +290,11 @@ func checkReplicationFinal(r *runner) []Violation {
 			vs = append(vs, Violation{r.sc.Property, "every-log-eventually-delivered", fmt.Sprintf("after a stale last log id was persisted across a reset, the restarted pipeline resumed from it and never re-exported %v", missing)})
 			return vs
 		}
-		what := "every log of the ledger"
-		if r.worker.lastResetSeq() > 0 {
-			what = "every log of the ledger again after the reset"
+		what := "every log of its ledger"
+		if r.worker.lastResetSeq("") > 0 {
+			what = "every log of its ledger (again after a reset)"
 		}
-		vs = append(vs, Violation{r.sc.Property, "every-log-eventually-delivered", fmt.Sprintf("faults have stopped and %v of simulated time passed, yet the exporter did not receive %s: missing %v; parked=%v", r.w.simTime, what, missing, r.w.ParkedKeys())})
+		vs = append(vs, Violation{r.sc.Property, "every-log-eventually-delivered", fmt.Sprintf("faults have stopped and %v of simulated time passed, yet an enabled pipeline did not deliver %s: missing (ledger>exporter:log) %v; parked=%v", r.w.simTime, what, missing, r.w.ParkedKeys())})
 	}
 	return vs
 }
-
-var _ = json.Marshal
-var _ = strings.Join
